@@ -4,7 +4,7 @@ from .. import common as C
 from .. import cases as K
 from .. import layer_d as D
 from ..layer_a import proj_kinds
-from ..runner import canon
+from ..runner import canon, load_corpus
 
 MODULE = "Props.C15"
 THEOREMS = ["C15_unmentioned_provided_runs_default", "C15_delegation_is_direct_calls", "C15_body_calls_required_methods",
@@ -17,7 +17,7 @@ RULE = ("clause sets over the delegation inventory (trait D: required r0/r1; pro
         "literal builder chains and compiled with the real macros on every run: required methods with counted response chains, ordered sequences or "
         "failing patterns; provided methods unmentioned (implicit fall-through), with applies_default_impl(), or mocked; histories mix direct required "
         "calls with provided calls through every receiver kind (Rc/Arc both as sole owner and with another owner kept), on the original and on clones, "
-        "strict and partial, followed by count observation and verification. Compared with the model per call (result text = the body's responses in "
+        "strict and partial, followed by count observation and verification; plus a directed grid (every receiver kind x 1-2 body calls x re-entrant / plain answers x original / clone). Compared with the model per call (result text = the body's responses in "
         "order) and on the verdict. distinct = canonical JSON; non-trivial = a provided call whose body makes >= 2 required calls is interleaved with "
         "direct calls to the same required methods")
 
@@ -96,6 +96,32 @@ def gen_case(rng):
     return {"partial": rng.random() < 0.3, "terms": terms, "events": evs}
 
 
+def directed_cases():
+    """every provided receiver kind x a body that makes 1 or 2 required calls x {the required call is answered by a function that itself
+    calls a provided method on the mock it receives (the helper's helper), plain responses}, on the original (all) and on a clone
+    (re-entrant ones), followed by the handle count and the verdict"""
+    out = []
+    for m in D.PROVIDED_D:
+        for a in (1, 2):
+            for reentrant in (True, False):
+                for on_clone in ((False, True) if reentrant else (False,)):
+                    terms = [{"kind": "call", "mid": 10, "opener": "each", "pat": {"matcher": 255, "dbg": 1, "ops": [("ans", 2001 if reentrant else 1)]}},
+                             {"kind": "call", "mid": 11, "opener": "each", "pat": {"matcher": 255, "dbg": 2, "ops": [("ret", 2)]}},
+                             {"kind": "call", "mid": 23, "opener": "each", "pat": {"matcher": 255, "dbg": 3, "ops": [("ret", 3)]}}]
+                    evs = [{"base": ("clone", 0)}]
+                    i = 1 if on_clone else 0
+                    evs.append({"base": ("call", i, m, a)})
+                    consumed = m in D.CONSUMING
+                    other = 0 if on_clone else 1
+                    evs.append({"base": ("count", other)})
+                    evs.append({"base": ("call", other, 10, 0)})
+                    live = [x for x in (0, 1) if not (consumed and x == i)]
+                    for x in sorted(live, reverse=True):
+                        evs.append({"base": ("drop" if x else "verify", x)})
+                    out.append({"partial": False, "terms": terms, "events": evs, "_directed": True})
+    return out
+
+
 def nontrivial(case):
     direct = any(e["base"][0] == "call" and e["base"][2] in (10, 11) for e in case["events"])
     deleg = any(e["base"][0] == "call" and e["base"][2] in (14, 15, 16, 17, 18, 19, 21, 22, 27, 28) and e["base"][3] % 4 >= 2 for e in case["events"])
@@ -111,7 +137,7 @@ def run(tier, seed):
         obligations += C.inventory_obligation(with_dtrait=True)
     except C.CheckFailure as pf:
         pending_failure = pf          # look for a concrete failing input first
-    cases = [gen_case(rng) for _ in range(160 if tier == "quick" else 900)]
+    cases = load_corpus("C15") + directed_cases() + [gen_case(rng) for _ in range(130 if tier == "quick" else 900)]
     impl, model = D.both(CRATE, cases)
     bad = [i for i, c in enumerate(cases) if proj_kinds(c, impl[i]) != proj_kinds(c, model[i])]
     distinct = {canon(c): c for c in cases}
